@@ -60,7 +60,7 @@ CONSTANTS
   Pages,       \* page sizes
   SSizes,      \* stream sizes
   Filts,       \* subset of {"none", "client", "server"}
-  Ops,         \* subset of {"pub", "rem", "exp", "sexp", "clear", "refresh"}
+  Ops,         \* subset of {"pub", "rem", "exp", "sexp", "clear", "refresh", "poscheck"}
   Pres,        \* numbers of environment operations allowed before the client starts ({MaxOps} = no restriction;
                \* smaller values make -simulate place more operations inside the protocol)
   N0s,         \* numbers of keys already published when the behaviour starts (keys 1..n0, one publish each)
@@ -446,10 +446,20 @@ SubRefresh(changed) ==
   /\ UNCHANGED <<state, top, win, epoch, log, wire, nops, cfg, pc, buf, srv, rd, tr, resubs, hz>>
   /\ step' = [act |-> "SubRefresh", changed |-> changed]
 
+\* periodic position check of the connection (Client.updatePresence -> checkPosition): the position of a live positioned
+\* subscription is compared with the broker's stream position; a difference (epoch, or offset - also while a delivery
+\* is still in flight) ends the subscription with insufficient state.  A valid position changes nothing (not an action).
+PosCheck ==
+  /\ "poscheck" \in Ops /\ HasStream /\ sub.st = "live" /\ pc = "idle"
+  /\ ~(sub.ep = epoch /\ sub.pos = top)
+  /\ Insufficient
+  /\ UNCHANGED <<state, top, win, epoch, log, wire, nops, cfg, pc, srv, rd, tr, resubs, sfnow, refreshed, hz>>
+  /\ step' = [act |-> "PosCheck"]
+
 Next ==
   \/ \E k \in Keys : Publish(k) \/ RemoveKey(k) \/ KeyExpiry(k)
   \/ StreamExpiry \/ Clear
-  \/ Deliver
+  \/ Deliver \/ PosCheck
   \/ StateCmd \/ StateLast \/ StateDecide \/ StreamCmd \/ StreamDecide \/ JoinCmd \/ TransRead \/ TransFinish
   \/ Snapshot \/ Resub
   \/ \E c \in BOOLEAN : SubRefresh(c)
@@ -468,7 +478,7 @@ Quiescent == /\ pc = "idle" /\ wire = <<>>
                 \/ cl.ph = "told" /\ resubs = MaxResub
 
 \* a positioned subscription whose position differs from the stream top with nothing in flight is ended by the periodic
-\* position check (Client.checkPosition; assumption, not modelled): such a state is not final
+\* position check (action PosCheck): such a state is not final
 PosValid == HasStream => (sub.ep = epoch /\ sub.pos = top)
 
 C22 == (Quiescent /\ cl.ph = "live" /\ PosValid) => Converged
